@@ -20,6 +20,7 @@ EXPLANATION = (
     "Model.__init__, as random.Random(seed) with the unmodified constructor parameter. The containers whose order is "
     "observable are initialised with dict / list literals. Batch workers read no module-level mutable state. The expected "
     "number of entropy references is zero, so positive witnesses (edit operators that plant one) run in every tier.")
+EXPLANATION += (' Batch workers: mutable module-level objects only (annotations, typing aliases, loggers and constants do not count). Premise: every run / repetition builds its own model (C15/C16 worker rules).')
 ASSUMPTIONS = ["random.Random(seed) is deterministic for a given seed (library)", "user systems are outside the package",
                "dict/list iteration order does not depend on PYTHONHASHSEED (language fact)"]
 
